@@ -176,6 +176,7 @@ class Env:
         self.raise_conn_sub = False
         self.raise_msg_sub = False
         self.conn_sub_sends = []
+        self.send_tasks = {}
         self.fail_counter = 0
         self.api_tasks = []
         self.close_tasks = []
@@ -411,7 +412,13 @@ class Env:
                 self._spawn(self._api_reset())
             elif k == "send":
                 _, sid, kind, policy = op
-                self._spawn(self._api_send(sid, kind, policy))
+                self.send_tasks[sid] = self._spawn(self._api_send(sid, kind, policy))
+            elif k == "cancel":
+                # the caller of send() gives up (a timeout around the call): its task is cancelled wherever it is
+                t = self.send_tasks.get(op[1])
+                if t is not None and not t.done():
+                    self.rec.emit("apiCancel", op[1], ticks(self.loop.time()))
+                    t.cancel()
             elif k == "adv":
                 await asyncio.sleep(op[1] * TICK)
             elif k == "turn":
